@@ -317,7 +317,13 @@ impl G<'_, '_> {
             29 => format!("first({} | select(. == {}))", self.stream_or_endless(d1), self.val()),
             30 => format!("({} | if . == {} then halt else . end)", self.stream(d1), self.val()),
             31 => format!("until(. == {}; {})", self.val(), self.stream(d1)),
-            32 => format!("[{}][{}]", self.stream(d1), self.src.below(3)),
+            32 => match self.src.below(4) {
+                0 => format!("[{}][{}]", self.stream(d1), self.src.below(3)),
+                // several indices / slice bounds: the accesses are delivered one by one
+                1 => format!("([1, 2, 3] | .[(0, (tick({}) | 1), (tick({}) | 2))])", self.id(), self.id()),
+                2 => format!("([1, 2, 3] | .[0:(1, (tick({}) | 2), (bomb({}) | 3))])", self.id(), self.id()),
+                _ => format!("([1, 2, 3] | .[(0, (tick({}) | 1)):(2, (tick({}) | 3))])", self.id(), self.id()),
+            },
             _ => format!("({}, error({}))", self.stream(d1), self.val()),
         }
     }
@@ -325,7 +331,14 @@ impl G<'_, '_> {
     /// evaluated in value mode
     fn pexpr(&mut self, d: usize) -> String {
         if d == 0 {
-            return match self.src.below(7) {
+            return match self.src.below(10) {
+                // an index or a slice bound with several outputs: one access per output, in their order
+                7 => format!(".[(\"a\", (tick({}) | \"b\"))]", self.id()),
+                8 => format!(".a[0:(1, (tick({}) | 2))]", self.id()),
+                9 => {
+                    self.uses_inputs = true;
+                    ".a[0:(1, (input | length))]".into()
+                }
                 0 => ".a".into(),
                 1 => ".b".into(),
                 2 => ".[]".into(),
@@ -541,15 +554,92 @@ fn incremental(i: usize) -> CaseResult {
     Ok(CaseOk::new(true, i as u64).class("endless-generator-pulled-one-by-one").desc(Some(desc)))
 }
 
+// ---------------------------------------------------------------- the consumer of the command line
+
+/// (arguments, bytes sent on standard input - which then stays open -, the bytes that must arrive on standard output)
+const CLI: &[(&[&str], &str, &str)] = &[
+    (&["-n", "1, 2, (def f: f; f)"], "", "1\n2\n"),
+    (&["-n", "repeat(1)"], "", "1\n1\n1\n"),
+    (&["-nc", "[1], limit(2; repeat(\"x\")), (def f: f; f)"], "", "[1]\n\"x\"\n\"x\"\n"),
+    (&["-n", "range(0; infinite)"], "", "0\n1\n2\n3\n"),
+    (&["-n", "1, repeat(empty)"], "", "1\n"),
+    (&["-n", "first(inputs), (def f: f; f)"], "5\n", "5\n"),
+    (&["-n", "foreach inputs as $x (0; . + $x)"], "1\n2\n", "1\n3\n"),
+    (&["-c", "., (def f: f; f)"], "[1,2]\n", "[1,2]\n"),
+    (&["-nr", "\"a\", (def f: f; f)"], "", "a\n"),
+    (&["-n", "--raw-output0", "\"a\", \"b\", (def f: f; f)"], "", "a\u{0}b\u{0}"),
+    (&["-nj", "\"a\", \"b\", (def f: f; f)"], "", "ab"),
+    (&["-n", "{\"a\": 1}, (def f: f; f)"], "", "{\n  \"a\": 1\n}\n"),
+    (&["-n", "isempty(repeat(1)), first(range(5; infinite)), (def f: f; f)"], "", "false\n5\n"),
+    (&["-n", "label $l | repeat(1) | ., break $l"], "", "1\n"),
+];
+
+/// The k-th output reaches the reader of the command line (a pipe, or a file) although the rest of the
+/// stream never ends: jaq is started, the expected bytes must arrive within 15 s, then jaq is killed.
+fn cli_consumer(i: usize) -> CaseResult {
+    use std::io::{Read, Write};
+    let to_file = i >= CLI.len();
+    let (args, stdin, want) = CLI[i % CLI.len()];
+    let case = json!({"command": format!("jaq {}", args.iter().map(|a| format!("{a:?}")).collect::<Vec<_>>().join(" ")), "stdin_kept_open_after": stdin, "stdout_is": if to_file { "a file" } else { "a pipe" }, "expected_output_so_far": want});
+    vcore::runner::note_case(|| case.to_string());
+    let scratch = vcore::cli::Scratch::new("c03");
+    let path = scratch.path.join("out.txt");
+    let mut cmd = std::process::Command::new(vcore::cli::jaq_bin());
+    cmd.args(args).env("NO_COLOR", "1").stdin(std::process::Stdio::piped()).stderr(std::process::Stdio::null());
+    if to_file {
+        cmd.stdout(std::fs::File::create(&path).map_err(|e| CaseFail::new("harness", e.to_string(), json!({})))?);
+    } else {
+        cmd.stdout(std::process::Stdio::piped());
+    }
+    let mut child = cmd.spawn().map_err(|e| CaseFail::new("harness-spawn", e.to_string(), json!({})))?;
+    let mut sin = child.stdin.take().unwrap();
+    let _ = sin.write_all(stdin.as_bytes());
+    let _ = sin.flush();
+    let got = std::sync::Arc::new(std::sync::Mutex::new(Vec::<u8>::new()));
+    if !to_file {
+        let mut so = child.stdout.take().unwrap();
+        let g = got.clone();
+        std::thread::spawn(move || {
+            let mut buf = [0u8; 256];
+            while let Ok(n) = so.read(&mut buf) {
+                if n == 0 {
+                    break;
+                }
+                g.lock().unwrap().extend_from_slice(&buf[..n]);
+            }
+        });
+    }
+    let t0 = std::time::Instant::now();
+    let mut ok = false;
+    while t0.elapsed().as_secs() < 15 {
+        let have: Vec<u8> = if to_file { std::fs::read(&path).unwrap_or_default() } else { got.lock().unwrap().clone() };
+        if have.len() >= want.len() {
+            ok = have.starts_with(want.as_bytes());
+            break;
+        }
+        std::thread::sleep(std::time::Duration::from_millis(20));
+    }
+    let have: Vec<u8> = if to_file { std::fs::read(&path).unwrap_or_default() } else { got.lock().unwrap().clone() };
+    let _ = child.kill();
+    let _ = child.wait();
+    drop(sin);
+    if !ok {
+        return Err(CaseFail::new("output-does-not-reach-the-consumer-of-the-command-line", format!("after {:.1} s the reader has {:?}, expected to have {:?} by then (the rest of the stream never ends)", t0.elapsed().as_secs_f64(), String::from_utf8_lossy(&have[..have.len().min(200)]), want), case));
+    }
+    Ok(CaseOk::new(true, 5000 + i as u64).class(if to_file { "stdout-is-a-file" } else { "stdout-is-a-pipe" }).desc(Some(case)))
+}
+
 pub fn run(mut rep: Report) -> ! {
     rep.set_rule(
         "random: stream programs of nesting depth 1-4 over comma, pipe, range, limit/first/skip/nth/isempty/any/all/until, label/break (conditional and unconditional), //, try/catch, ?, array collection, foreach/reduce, variable binding, definitions with and without filter parameters, input/inputs/first(inputs)/limit(n; inputs)/foreach inputs, halt, error, and seven endless generators (repeat, recursive definitions with and without arguments, recurse, range(0; infinite), while(true; ...)) that are only placed under consumers; every marker is a native filter of the harness (tick($id): record and pass on; bomb($id): record and raise), every endless generator evaluates a marker per round; jaq is pulled k = 1..6 items through Filter.id.run with a counting input iterator (0-4 values, sometimes followed by an endless tail); after each delivered item: same item as the reference, markers fired by jaq form a subset of those the reference has fired, inputs consumed <= the reference's; a marker count or input count beyond 3000 (evaluation without bound) is a violation when the reference delivered its items within its fuel; \
          incremental: 20 endless programs are pulled 1500 outputs one by one (inputs consumed at most one ahead); \
+         command line: 14 invocations whose stream never ends after k outputs (diverging tail, endless generator, standard input kept open), with standard output a pipe and a file: the bytes of the first k outputs must reach the reader within 15 s (then jaq is killed); \
          non-trivial = at some compared point a marker of the program had not been reached by the reference, or inputs were left (only then eager evaluation could show)",
     );
     rep.assume("REF (C01's definitional interpreter, lazy, memoising) with pinned manual definitions of repeat/recurse/while/until/nth/isempty/any/all/range/add/select defines what the left-to-right semantics has reached; markers are only placed in stream positions (comma, pipe, generator rounds, branches), not inside operands of binary operators, object constructions or path indices, whose relative evaluation order the manual leaves open; markers fire when their output is demanded, not when jaq constructs the iterator");
     let n = rep.n(60_000, 3_000_000);
     rep.random("marker-differential", n, 160, case);
     rep.fixed("endless-generators-incremental", 20, incremental);
+    rep.fixed("command-line-consumer", 2 * CLI.len(), cli_consumer);
     rep.finish()
 }
